@@ -12,7 +12,7 @@ THEOREMS = [
     "c12_latest_resolves", "c12_latest_text", "c12_latest_always_replaced", "c12_latest_resolves_nosub_partial", "c12_all_under_rundir",
     "c12_artifacts_survive_iff", "c12_rundir_erased_iff", "c12_upload_implies_clear",
     "c12_rundir_erased_general", "c12_foul_flag_is_exit_status", "c12_range_contains",
-    "c12_listed_tree_is_what_survives",
+    "c12_listed_tree_is_what_survives", "c12_second_run_same_id_refused", "c12_later_run_keeps_latest",
 ]
 HEADER = ("From Shk Require Import Base.Prelude Model.Dirs Corr.C12.\n"
           "From Coq Require Import Strings.String.\nOpen Scope Z_scope.\n")
@@ -26,6 +26,8 @@ QUERIES = [
     ("Orange", "bad_indices range_oracle_bad range_cases"),
     ("Mtree", "bad_indices tree_model_bad tree_cases"),
     ("Otree", "bad_indices tree_oracle_bad tree_cases"),
+    ("Mduo", "bad_indices duo_model_bad duo_cases"),
+    ("Oduo", "bad_indices duo_oracle_bad duo_cases"),
     ("Mplay", "bad_indices play_model_bad play_cases"),
     ("Oplay", "bad_indices play_oracle_bad play_cases"),
     ("OplayCode", "map play_oracle_code (filter play_oracle_bad play_cases)"),
@@ -80,7 +82,7 @@ def run(tier, seed):
         "observed only, by walking the file system after real plays: nothing appears outside <output-dir>/<run id> and <output-dir>/latest (inside a private root holding cwd, HOME and TMPDIR), every path of result.js's artifact tree and every data file / loaded script named in plots/*.gp exists, result.js is `var result = ` followed by exactly one JSON document (it is JavaScript, as report.html needs it)",
         "times: csv files print 4 decimals, so containment in [MinTime, MaxTime] is checked with a tolerance of 0.00005 s; times not written to any csv (mood changes) are only covered by the hook-level range cases",
         "no failure after the play (plot, result files, upload) in the survival / exit-status statements except where the theorem says otherwise; gnuplot is absent here (a warning, not an error); the upload is exercised with a fake scp",
-        "the run id is the wall-clock second: two runs into the same output directory within one second are outside the claim",
+        "the run id is the wall-clock second: a second run into the same output directory within the same second is refused (Mkdir: file exists), which the duo cases pin; they depend on timing (start of a second, 1.3 s overlap) and are retried up to 6 times, a duo whose timing could not be achieved says nothing (counted in the distribution)",
     ]
     ok, detail = vlib.proof_stage(res, "C12", THEOREMS)
     if not ok:
@@ -106,13 +108,13 @@ def run(tier, seed):
         shutil.rmtree(out, ignore_errors=True)
     rc, cout, q, path = vlib.eval_cases(PID, tier, HEADER, cases_v, QUERIES, timeout=3000)
     vals = {k: vlib.parse_nat_list(v) for k, v in q.items()}
-    n_eval = sum(summary[k] for k in ("clean", "join", "abs", "link", "range", "plays", "tree"))
+    n_eval = sum(summary[k] for k in ("clean", "join", "abs", "link", "range", "plays", "tree", "duos"))
     res.coverage.update({
         "evaluations": n_eval,
         "distinct_nontrivial": summary["distinct_nontrivial"],
-        "rule": "plays: quick = a greedy 3-way covering array of {-k} x {--clear} x {--disable-plots} x {-q} x {fouled (by an auditor or by a failing action), clean} x {'.', out, a/b/out, absolute (with a blank)} x {repeat section, none} (every triple of factor values occurs; the seed changes the rows), thorough = all 256; plus 4 --upload-url plays with a fake scp, one probing an output directory with a blank, 6 plays (24 thorough) that follow an earlier run into the same output directory one second before (erased by --clear, deleted by hand, or kept) and 2 (8) whose repeat section is never reached because a failing action fouls act 1 (plots on). The `mk` action of every play leaves editor temporaries (copy.txt~ from cp -b, notes~, #edit#, #half~), a directory old~ with a file, a fifo, and symbolic links to a directory, to a regular file, to the fifo, to nowhere, to /etc and to itself; besides `every named path exists` the oracle now asks that every file left in the run directory (but index.html / upload.log, written later, and editor temporaries / fifos, which an interrupted play leaves behind unnamed because it skips the upload step) is named. trees: 150 (2000) generated directory trees (names a.txt b~ #c# #d~ e# # ~ h~x j#~ ..., directories d~ #g# ..., regular files, symbolic links (dangling, to the containing directory, to a sibling file, to a file / directory / fifo outside the tree, to themselves), fifos in a third of them) through the real collectArtifacts and removeNonUploadableFiles (hook VerifArtifacts). 3 (12) plays are cut short by SIGINT / SIGTERM / SIGHUP sent to the shakespeare process while an action runs (treated as fouled: exit 1, Foul, artifacts kept); $GNUPLOT points at nothing, at a program that exits 0 or at one that exits 1 (4 (16) dedicated plays plus a random choice in the matrix): no effect on how a play ends. Fouls are by an auditor, by a failing action in the last (repeated) act, or by one in act 1. Spotlights emit an instant far in the future and (3 of 4) one in the past, so MinTime < 0 < 1 < MaxTime. links: the real prepareDirs for 13 forms of output directory (absolute, '.', relative, nested, './x', 'x/', 'a/../x', '../w2/x', 'a//b', with a blank, ...) x run ids (some without). ranges: lists of 0-8 instants (multiples of 1/1024 s in [-5 s, 12 s]) through the real assemble. paths: generated strings of up to 5 components from {a, b, .., ., '', 'c d', x.y, out, ...}. distinct_nontrivial = distinct plays (by factor values) + link forms + ranges of >= 2 instants.",
+        "rule": "plays: quick = a greedy 3-way covering array of {-k} x {--clear} x {--disable-plots} x {-q} x {fouled (by an auditor or by a failing action), clean} x {'.', out, a/b/out, absolute (with a blank)} x {repeat section, none} (every triple of factor values occurs; the seed changes the rows), thorough = all 256; plus 4 --upload-url plays with a fake scp, one probing an output directory with a blank, 6 plays (24 thorough) that follow an earlier run into the same output directory one second before (erased by --clear, deleted by hand, or kept) and 2 (8) whose repeat section is never reached because a failing action fouls act 1 (plots on). The `mk` action of every play leaves editor temporaries (copy.txt~ from cp -b, notes~, #edit#, #half~), a directory old~ with a file, a fifo, and symbolic links to a directory, to a regular file, to the fifo, to nowhere, to /etc and to itself; besides `every named path exists` the oracle now asks that every file left in the run directory (but index.html / upload.log, written later, and editor temporaries / fifos, which an interrupted play leaves behind unnamed because it skips the upload step) is named. trees: 150 (2000) generated directory trees (names a.txt b~ #c# #d~ e# # ~ h~x j#~ ..., directories d~ #g# ..., regular files, symbolic links (dangling, to the containing directory, to a sibling file, to a file / directory / fifo outside the tree, to themselves), fifos in a third of them) through the real collectArtifacts and removeNonUploadableFiles (hook VerifArtifacts). 3 (12) plays are cut short by SIGINT / SIGTERM / SIGHUP sent to the shakespeare process while an action runs (treated as fouled: exit 1, Foul, artifacts kept); $GNUPLOT points at nothing, at a program that exits 0 or at one that exits 1 (4 (16) dedicated plays plus a random choice in the matrix): no effect on how a play ends. duos: 2+2 (6+6) pairs of plays into one output directory: started within the same second (the second must be refused, the first keeps its own result.js / artifacts / exit status) and overlapping (a long clean --clear play must leave the later play's `latest` alone). Fouls are by an auditor, by a failing action in the last (repeated) act, or by one in act 1. Spotlights emit an instant far in the future and (3 of 4) one in the past, so MinTime < 0 < 1 < MaxTime. links: the real prepareDirs for 13 forms of output directory (absolute, '.', relative, nested, './x', 'x/', 'a/../x', '../w2/x', 'a//b', with a blank, ...) x run ids (some without). ranges: lists of 0-8 instants (multiples of 1/1024 s in [-5 s, 12 s]) through the real assemble. paths: generated strings of up to 5 components from {a, b, .., ., '', 'c d', x.y, out, ...}. distinct_nontrivial = distinct plays (by factor values) + link forms + ranges of >= 2 instants.",
         "samples": summary["samples"],
-        "distribution": {k: summary[k] for k in ("clean", "join", "abs", "link", "range", "plays", "tree", "trees_with_a_fifo", "play_distribution", "link_hook_errors")},
+        "distribution": {k: summary[k] for k in ("clean", "join", "abs", "link", "range", "plays", "tree", "trees_with_a_fifo", "duos", "duos_with_the_planned_timing", "play_distribution", "link_hook_errors")},
         "traces_validated_against_impl": summary["plays"],
         "cases_file": path,
     })
@@ -157,6 +159,23 @@ def run(tier, seed):
             ("resolves to " + c["Resolved"]) if c["Resolves"] else "is dangling"),
             {"kind": "failing-input", "input": c, "expected": c["RunDir"],
              "replay": "cd %s; cmd.VerifScriptsFull('', %r, %r); readlink / stat <output-dir>/latest" % (c["Cwd"], c["DataDir"], c["Sub"])})
+    for idx in vals["Oduo"]:
+        d = cases["duo"][idx]
+        if d["SameSecond"]:
+            sig = "second-run-in-the-same-second-not-refused"
+            what = ("two plays started within one second into output directory kind %d: the second one (clean, actor bob) exits %d with %d run director%s; "
+                    "the first one (fouled, actor alice) exits %d; its directory holds its own results only: %s. %s" % (
+                        d["DirKind"], d["ExitB"], d["NRuns"], "y" if d["NRuns"] == 1 else "ies", d["ExitA"], d["AOwn"], d["Note"]))
+            replay = "at the start of a second: shakespeare -q --disable-plots -o out a.cfg & sleep 0.15; shakespeare -q --disable-plots -o out b.cfg & wait (a.cfg: actor alice, action `echo evidence >evidence.txt; sleep 0.5; false`; b.cfg: actor bob, action `echo b >b.txt; sleep 1.2`)"
+        else:
+            sig = "latest-not-the-later-run-after-overlap"
+            what = ("a long clean --clear play overlapping a later, shorter play in one output directory (kind %d): afterwards latest leads to the later run's directory: %s, "
+                    "the earlier run's directory is gone: %s, exits %d / %d. %s" % (d["DirKind"], d["LatestToB"], d["AGone"], d["ExitA"], d["ExitB"], d["Note"]))
+            replay = "shakespeare -q --disable-plots --clear -o out a.cfg & sleep 1.3; shakespeare -q --disable-plots -o out b.cfg; wait; readlink / ls out/latest (a.cfg: action `sleep 2.6`; b.cfg: action `sleep 0.1`)"
+        if sig in seen:
+            continue
+        seen.add(sig)
+        res.violation(sig, what, {"kind": "failing-input", "duo": d, "replay": replay})
     for idx in vals["Otree"][:1]:
         c = cases["tree"][idx]
         gone = [x for x in c["Listed"] if x not in (c["Survived"] or [])]
@@ -176,7 +195,7 @@ def run(tier, seed):
         res.violation("time-range-misses-an-instant", "assemble gives [%d, %d]/1024 s for instants %s/1024 s" % (c["Min"], c["Max"], c["Ts"]),
                       {"kind": "failing-input", "input": c, "replay": "cmd.VerifAssembleRange([t/1024 for t in Ts])"})
     if not res.violations and not res.known:
-        for name, key in (("Mplay", "play"), ("Mtree", "tree"), ("Mlink", "link"), ("Mrange", "range"), ("Mclean", "clean"), ("Mjoin", "join"), ("Mabs", "abs")):
+        for name, key in (("Mplay", "play"), ("Mduo", "duo"), ("Mtree", "tree"), ("Mlink", "link"), ("Mrange", "range"), ("Mclean", "clean"), ("Mjoin", "join"), ("Mabs", "abs")):
             if vals[name]:
                 c = cases[key][vals[name][0]]
                 res.violation(None, "model and implementation disagree on a %s case (property oracle passes): correspondence %s broken" % (key, name),
